@@ -192,7 +192,7 @@ Lemma json_parse_tree_S : forall fuel' here parent node,
   json_parse_tree (S fuel') here parent node =
   match jget "name" node with Err e => Err e | Ok n =>
   match jget "abstract" node with Err e => Err e | Ok ab =>
-  match jstr n with Err e => Err e | Ok name =>
+  match jstr n with Err _ => Err ParsingException | Ok name =>
   match json_read_attributes node with Err e => Err e | Ok attrs =>
   match rd_rels (json_parse_tree fuel') here node with
   | Err e => Err e
@@ -1476,3 +1476,21 @@ Example json_read_bad_term :
   /\ exists pm, json_read (ex_ctc_doc (VMap [("type", VStr jt_FEATURE); ("operands", VList [VStr "R"])])) = Ok pm.
 Proof. split; [vm_compute; reflexivity|]. split; [vm_compute; reflexivity|]. vm_compute. eexists. reflexivity. Qed.
 Print Assumptions json_read_bad_term.
+
+(* a feature name that is not a string, and a cardinality bound that is not an integer (here the float 1.0), are parsing
+   errors; the same CARDINALITY relation with the integer 1 is read *)
+Definition ex_card_doc (cmin : aval) : aval :=
+  VMap [("features",
+         VMap [("name", VStr "R"); ("abstract", VBool false);
+               ("relations", VList [VMap [("type", VStr jt_CARDINALITY); ("card_min", cmin);
+                                          ("card_max", VInt 1);
+                                          ("children", VList [VMap [("name", VStr "A");
+                                                                    ("abstract", VBool false)]])]])]);
+        ("constraints", VList [])].
+Example json_read_bad_types :
+  json_read (VMap [("features", VMap [("name", VInt 1); ("abstract", VBool false)]);
+                   ("constraints", VList [])]) = Err ParsingException
+  /\ json_read (ex_card_doc (VFloat "1.0")) = Err ParsingException
+  /\ exists pm, json_read (ex_card_doc (VInt 1)) = Ok pm.
+Proof. split; [vm_compute; reflexivity|]. split; [vm_compute; reflexivity|]. vm_compute. eexists. reflexivity. Qed.
+Print Assumptions json_read_bad_types.
